@@ -149,6 +149,26 @@ theorem loader_entry_imperative_wins (files : List (List (Option Str))) (env : O
   · cases h1
   · exact (Except.ok.inj h1).symm
 
+/-- explicit_name_wins, with `WithInterpolation` in play: a successful run whose last `WithName` is non-empty has
+    exactly that name — `SkipInterpolation` changes nothing about the precedence -/
+theorem explicit_name_wins_any_interpolation (w : World) (opts : List Opt) (interps : List Bool) (r : Loaded)
+    (h : runX w opts interps = .ok r) (hreq : requestedName opts [] ≠ []) : r.name = requestedName opts [] := by
+  unfold runX at h
+  split at h
+  · rename_i o ho
+    have hn : o.name = requestedName opts [] := runOpts_name w opts { configs := w.given } o ho
+    have hne : o.name ≠ [] := by rw [hn]; exact hreq
+    unfold loadX at h
+    split at h
+    · cases h
+    · split at h
+      · cases h
+      · have hc : cliName w o = (o.name, true) := by simp [cliName, hne]
+        have := loader_entry_imperative_wins _ _ _ _ r (by simp [loptsOf, hc]) h
+        rw [this, ← hn]
+        simp [loptsOf, hc]
+  · cases h
+
 /-- **the decision of the loader entry is the specification's**: with the imperatively set name as the explicit
     request and the name that was not set imperatively in the place of the directory name, `loader.projectName`
     returns what `Spec.decide` selects — the `name:` of the last file that sets one, interpolated (or as written
